@@ -3,7 +3,7 @@ from pyvc.contract import contract, define, fields
 
 CORE = "sqlglot/expressions/core.py"
 
-fields(args="dict", parent="Expr|none", arg_key="str|none", index="int|none", _hash="int|none")
+fields(args="dict", parent="Expression|none", arg_key="str|none", index="int|none", _hash="int|none")
 
 # link invariant for one argument slot of node n
 define(
@@ -61,7 +61,7 @@ define("detached_from", "lambda v, l: implies(isinstance(v, Expr), not in_list(l
 
 contract(
     CORE, "Expression.append", props=["C08"],
-    types={"arg_key": "str", "node": "Expr|none"},
+    types={"arg_key": "str", "node": "Expression|none"},
     requires=[
         "hc()", "wf_slot(self, arg_key)",
         # the appended node is not already an element of that list (no node stored twice)
@@ -89,7 +89,7 @@ define("slot_list", "lambda s, k: has(s.args, k) and is_list(s.args[k])")
 
 contract(
     CORE, "Expression.set", props=["C08"],
-    types={"arg_key": "str", "index": "int|none", "overwrite": "bool", "node": "Expr|none", "v": "Expr"},
+    types={"arg_key": "str", "index": "int|none", "overwrite": "bool", "node": "Expression|none", "v": "Expr"},
     requires=[
         "hc()", "wf_slot(self, arg_key)", "index is None or index >= 0",
         # positional edits address a list-valued slot holding distinct expression nodes
@@ -105,6 +105,19 @@ contract(
         "args_frame(self, arg_key)",
         "implies(index is None and value is None, not has(self.args, arg_key))",
         "implies(index is None and value is not None, has(self.args, arg_key) and self.args[arg_key] is value)",
+        # positional overwrite: same list object, same length, only position `index` changes
+        "implies(index is not None and old(slot_list(self, arg_key) and index < len(self.args[arg_key]) and self.args[arg_key][index] is not None)"
+        " and value is not None and not is_list(value) and overwrite,"
+        " self.args[arg_key] is old(self.args[arg_key]) and len(self.args[arg_key]) == old(len(self.args[arg_key])) and self.args[arg_key][index] is value"
+        " and forall(range(0, len(self.args[arg_key])), lambda i: implies(i != index, self.args[arg_key][i] is old(self.args[arg_key][i]))))",
+        # positional removal: the element is gone and the tail moved down by one
+        "implies(index is not None and old(slot_list(self, arg_key) and index < len(self.args[arg_key]) and self.args[arg_key][index] is not None) and value is None,"
+        " self.args[arg_key] is old(self.args[arg_key]) and len(self.args[arg_key]) == old(len(self.args[arg_key])) - 1"
+        " and forall(range(0, index), lambda i: self.args[arg_key][i] is old(self.args[arg_key][i]))"
+        " and forall(range(index, len(self.args[arg_key])), lambda i: self.args[arg_key][i] is old(self.args[arg_key][i + 1])))",
+        # an out-of-range position is a no-op on the arguments
+        "implies(index is not None and not old(slot_list(self, arg_key) and index < len(self.args[arg_key]) and self.args[arg_key][index] is not None),"
+        " iff(has(self.args, arg_key), old(has(self.args, arg_key))) and self.args[arg_key] is old(self.args[arg_key]))",
     ],
     modifies=LINKS + ["*._hash", "self.args{}", "self.args[arg_key][]"],
     loops={0: WALK, 1: dict(
@@ -116,4 +129,59 @@ contract(
              "forall('Expr', lambda n: implies(not (n.parent is self and n.arg_key == arg_key), n.index == old(n.index)))"],
         dec="len(_seq1) - _k1",
     )},
+)
+
+# `n` is stored in its parent exactly where its own link fields say
+define(
+    "stored_in_parent",
+    "lambda n: n.arg_key is not None and has(n.parent.args, n.arg_key)"
+    " and ite(n.index is None, n.parent.args[n.arg_key] is n,"
+    "  is_list(n.parent.args[n.arg_key]) and 0 <= n.index and n.index < len(n.parent.args[n.arg_key]) and n.parent.args[n.arg_key][n.index] is n)",
+)
+
+contract(
+    CORE, "Expression.replace", props=["C08"],
+    types={"parent": "Expression|none", "key": "str|none", "value": "any"},
+    requires=[
+        "hc()", "expression is not self", "not is_list(expression)",
+        "implies(self.parent is not None, stored_in_parent(self) and wf_slot(self.parent, self.arg_key) and self.arg_key != '')",
+        "implies(self.parent is not None and self.index is not None,"
+        " all_exprs(self.parent.args[self.arg_key]) and distinct_exprs(self.parent.args[self.arg_key]) and detached_from(expression, self.parent.args[self.arg_key]))",
+    ],
+    ensures=[
+        "result is expression", "hc()", "only_cleared()",
+        "implies(old(self.parent) is not None and old(self.parent) is not expression,"
+        " self.parent is None and self.arg_key is None and self.index is None"
+        " and old(self.parent)._hash is None and wf_slot(old(self.parent), old(self.arg_key)))",
+        # scalar slot: the parent now holds the replacement (or nothing, for pop)
+        "implies(old(self.parent) is not None and old(self.parent) is not expression and old(self.index) is None,"
+        " ite(expression is None, not has(old(self.parent).args, old(self.arg_key)), old(self.parent).args[old(self.arg_key)] is expression))",
+        # list slot: position `index` now holds the replacement; for pop the list is one shorter
+        "implies(old(self.parent) is not None and old(self.parent) is not expression and old(self.index) is not None and expression is not None,"
+        " old(self.parent).args[old(self.arg_key)][old(self.index)] is expression"
+        " and len(old(self.parent).args[old(self.arg_key)]) == old(len(self.parent.args[self.arg_key])))",
+        "implies(old(self.parent) is not None and old(self.index) is not None and expression is None,"
+        " len(old(self.parent).args[old(self.arg_key)]) == old(len(self.parent.args[self.arg_key])) - 1)",
+        "implies(old(self.parent) is None or old(self.parent) is expression, self.parent is old(self.parent) and self._hash == old(self._hash))",
+    ],
+    modifies=LINKS + ["*._hash", "self.parent.args{}", "self.parent.args[self.arg_key][]"],
+)
+
+contract(
+    CORE, "Expression.pop", props=["C08"],
+    requires=[
+        "hc()",
+        "implies(self.parent is not None, stored_in_parent(self) and wf_slot(self.parent, self.arg_key) and self.arg_key != '')",
+        "implies(self.parent is not None and self.index is not None,"
+        " all_exprs(self.parent.args[self.arg_key]) and distinct_exprs(self.parent.args[self.arg_key]))",
+    ],
+    ensures=[
+        "result is self", "hc()", "self.parent is None",
+        "implies(old(self.parent) is not None, self.arg_key is None and self.index is None and old(self.parent)._hash is None"
+        " and wf_slot(old(self.parent), old(self.arg_key)))",
+        "implies(old(self.parent) is not None and old(self.index) is None, not has(old(self.parent).args, old(self.arg_key)))",
+        "implies(old(self.parent) is not None and old(self.index) is not None,"
+        " len(old(self.parent).args[old(self.arg_key)]) == old(len(self.parent.args[self.arg_key])) - 1)",
+    ],
+    modifies=LINKS + ["*._hash", "self.parent.args{}", "self.parent.args[self.arg_key][]"],
 )
